@@ -265,6 +265,11 @@ var vC02Progs = []struct {
 	}},
 	{"v1 = 0; i = 0; while i < 3 { i = i + 1; if i == 2 { continue }; v1 = v1 + xx }; v1", func(p, q, r int64) (int64, bool) { return p + p, true }},
 	{"v1 = 0; i = 0; while i < 5 { i = i + 1; if i == 3 { break }; v1 = v1 + yy }; v1", func(p, q, r int64) (int64, bool) { return q + q, true }},
+	// nested loops whose outer body has break / continue before the inner loop
+	{"v1 = 0; i = 0; while i < 3 { i = i + 1; if i == 2 { break }; j = 0; while j < 3 { j = j + 1; v1 = v1 + xx }; v1 = v1 + 10 }; v1", func(p, q, r int64) (int64, bool) { return p + p + p + 10, true }},
+	{"v1 = 0; i = 0; while i < 3 { i = i + 1; if i == 1 { continue }; j = 0; while 1 { j = j + 1; if j > 2 { break }; v1 = v1 + yy }; v1 = v1 + 10 }; v1", func(p, q, r int64) (int64, bool) { return q + q + q + q + 20, true }},
+	{"v1 = 0; i = 0; while i < 3 { i = i + 1; if i == 1 { continue }; j = 0; while j < 2 { j = j + 1; v1 = v1 + zz }; v1 = v1 + 1 }; v1", func(p, q, r int64) (int64, bool) { return r + r + r + r + 2, true }},
+	{"v1 = 0; i = 0; while i < 9 { i = i + 1; if i == 1 { continue }; if i == 3 { break }; j = 0; while j < 2 { j = j + 1; if j == 2 { break }; v1 = v1 + xx }; v1 = v1 + 5 }; v1", func(p, q, r int64) (int64, bool) { return p + 5, true }},
 	{"func fn1(n) { return n * 2 }; fn1(xx) + fn1(yy)", func(p, q, r int64) (int64, bool) { return p*2 + q*2, true }},
 	{"func fn1(n) { if n > 0 { return 1 }; return 2 }; fn1(xx)", func(p, q, r int64) (int64, bool) {
 		if p > 0 {
@@ -329,7 +334,7 @@ func b2i(b bool) int64 {
 	return 0
 }
 
-//vh:prop=C02 tiers=quick,thorough sigkeys=prog unwind=12 budget_s=1200 bounds="46 programs covering precedence and grouping, short-circuit operators returning operands, ternary and multi-arm conditions, if / else-if / else, while with break and continue, functions with early return and local scope, computed values reading later assignments, array and dict aliasing (results of + * and slicing are fresh arrays, also after pop/push), negative indices, slices and slice assignment, container equality, whitespace/newline/parenthesis variants, and an erroring statement; integer variables xx, yy, zz are 64-bit symbols; second evaluation on the same VM (after the first, including failed ones) must agree again"
+//vh:prop=C02 tiers=quick,thorough sigkeys=prog unwind=12 budget_s=1200 bounds="50 programs covering precedence and grouping, short-circuit operators returning operands, ternary and multi-arm conditions, if / else-if / else, while with break and continue (also nested, with break / continue before the inner loop), functions with early return and local scope, computed values reading later assignments, array and dict aliasing (results of + * and slicing are fresh arrays, also after pop/push), negative indices, slices and slice assignment, container equality, whitespace/newline/parenthesis variants, and an erroring statement; integer variables xx, yy, zz are 64-bit symbols; second evaluation on the same VM (after the first, including failed ones) must agree again"
 func VH_C02_prog() {
 	k := vParam("prog", -1)
 	if k < 0 {
